@@ -339,8 +339,16 @@ func monitorOp(m *lib.Monitor, s Script, i int, want, got, pre, note string) {
 			m.Violate("C01/failed-call/event-emitted", "a failing call emitted a bus event", in, "[]", part(got, "ev"))
 		}
 	}
-	if op.has("gid") && (op.Op == "add" || op.Op == "upd") && s.Cfg.Kind == "coll" && !failed && probed(s.Cfg) && newOracle(s.Cfg).icpt(op.ID) == "" {
-		monitorGenID(m, s, i, got, pre)
+	// a write generates its id when the caller gave none (the id as given is empty, whatever the id
+	// interceptor makes of the empty id) or gave one the interceptor maps to the empty key
+	if op.has("gid") && (op.Op == "add" || op.Op == "upd") && s.Cfg.Kind == "coll" && probed(s.Cfg) && (op.ID == "" || newOracle(s.Cfg).icpt(op.ID) == "") {
+		if !failed {
+			monitorGenID(m, s, i, got, pre)
+		} else if rop := resolve(op); part(got, "err") == "AlreadyExists" && !rop.has("chk") && op.Site == "" {
+			// "a generated id is unused": such a write cannot find an item under its id (theorem
+			// C01_generated_id_never_exists), unless AlreadyExists is what the caller's own check answered
+			m.Violate("C01/genid/generated-id-already-exists", "a write that was given no id and generates one (WithGenIDIfAbsent) answered AlreadyExists: no id was generated, the empty id's image under the id interceptor was used as the key", in, "a fresh generated id (or Aborted when ten candidates are in use)", got)
+		}
 	}
 	if s.Cfg.Kind == "coll" {
 		for _, id := range outputIDs(got) {
@@ -471,6 +479,9 @@ func fixedScripts() []Script {
 		{Cfg: Cfg{Kind: "val", Tick: 1}, Ops: []Op{{Op: "vset", Msg: "1//-", Opts: []string{"wt=" + zeroInstant}}}},
 		// generated id under a lower-casing id interceptor (all-zero rng -> "AAAAAAAA")
 		{Cfg: zeros, Ops: []Op{{Op: "add", ID: "", Msg: "1//-", Opts: []string{"gid", "icb"}}, {Op: "list"}}},
+		// no id given behind a prefixing id interceptor ("" -> "-"): every such Add gets a generated id (fix 929e9c0)
+		{Cfg: Cfg{Kind: "coll", Tick: 1, Icpt: "dash"}, Ops: []Op{{Op: "add", ID: "", Msg: "1//-", Opts: []string{"gid", "icb"}},
+			{Op: "add", ID: "", Msg: "2//-", Opts: []string{"gid"}}, {Op: "upd", ID: "", Msg: "3//-", Opts: []string{"gid", "cia", "icb"}}, {Op: "list"}}},
 		// forced collisions and exhaustion: 11 generated ids from an all-zero rng
 		{Cfg: Cfg{Kind: "coll", Tick: 1}, Ops: repeatOp(Op{Op: "add", ID: "", Msg: "1//-", Opts: []string{"gid", "icb", "ccb"}}, 11)},
 		// failing Add still fires the created callback
@@ -638,6 +649,20 @@ func (h *harness) smallScope(maxLen int) {
 	cfg = Cfg{Kind: "coll", Tick: 1, Icpt: "lower"}
 	rec(nil)
 	h.tieS.Count(fmt.Sprintf("interceptor: alphabet=%d maxLen=%d", len(alpha), maxLen))
+	// under the prefixing interceptor `dash` ("" -> "-": the empty id gets a key of its own, which is not an
+	// id the caller provided): the empty id with and without id generation next to the id "-" itself and the
+	// id the first generation yields, from the same colliding rng
+	alpha = nil
+	for _, id := range []string{"", "-"} {
+		alpha = append(alpha, Op{Op: "add", ID: id, Msg: "1//-", Opts: []string{"gid", "icb"}},
+			Op{Op: "upd", ID: id, Msg: "2/x/-", Opts: []string{"cia", "gid", "icb", "ccb"}},
+			Op{Op: "del", ID: id}, Op{Op: "get", ID: id})
+	}
+	alpha = append(alpha, Op{Op: "list"}, Op{Op: "add", ID: "", Msg: "1//-"}, Op{Op: "upd", ID: "", Msg: "2/x/-", Opts: []string{"gid"}},
+		Op{Op: "get", ID: "AAAAAAAA"}, Op{Op: "del", ID: "AAAAAAAA"})
+	cfg = Cfg{Kind: "coll", Tick: 1, Icpt: "dash"}
+	rec(nil)
+	h.tieS.Count(fmt.Sprintf("prefixing interceptor: alphabet=%d maxLen=%d", len(alpha), maxLen))
 	// several writes on ONE resource with restricted writable fields, each with its own way of widening
 	// them (or none): what a write may touch depends on its own options only, never on an earlier write
 	for _, kind := range []string{"val", "coll"} {
